@@ -72,7 +72,32 @@ def setup():
         def context_keys(cls):
             return ["w"]
 
-    for c in (VerifAltCollection, VerifKeyedPayloadSource, VerifCtxWriteOperation):
+    from semantiva.data_io import DataSource, DataSink
+
+    # components WITHOUT a docstring of their own (wrappers copy the wrapped docstring into their metadata)
+    class VerifUndocSource(DataSource):
+        @classmethod
+        def _get_data(cls, value: float = 1.0):
+            return tu.FloatDataType(value)
+
+        @classmethod
+        def output_data_type(cls):
+            return tu.FloatDataType
+
+    class VerifUndocProbe(tu.FloatProbe):
+        def _process_logic(self, data):
+            return data.data
+
+    class VerifUndocSink(DataSink):
+        @classmethod
+        def _send_data(cls, data, path: str):
+            return None
+
+        @classmethod
+        def input_data_type(cls):
+            return tu.FloatDataType
+
+    for c in (VerifAltCollection, VerifKeyedPayloadSource, VerifCtxWriteOperation, VerifUndocSource, VerifUndocProbe, VerifUndocSink):
         ProcessorRegistry.register_processor(c.__name__, c)
     _state["ready"] = True
     return _state
@@ -81,9 +106,11 @@ def setup():
 BASES = ["FloatValueDataSource", "FloatValueDataSourceWithDefault", "FloatPayloadSource", "VerifKeyedPayloadSource",
          "FloatMultiplyOperation", "FloatMultiplyOperationWithDefault", "FloatSquareOperation",
          "FloatCollectionSumOperation", "VerifCtxWriteOperation", "FloatBasicProbe", "FloatCollectValueProbe",
-         "FloatMockDataSink", "FloatDataSink", "FloatPayloadSink", "ModelFittingContextProcessor"]
+         "FloatMockDataSink", "FloatDataSink", "FloatPayloadSink", "ModelFittingContextProcessor",
+         "VerifUndocSource", "VerifUndocProbe", "VerifUndocSink"]
 QUICK_BASES = ["FloatValueDataSource", "VerifKeyedPayloadSource", "FloatMultiplyOperation", "FloatCollectionSumOperation",
-               "VerifCtxWriteOperation", "FloatBasicProbe", "FloatMockDataSink", "FloatPayloadSink"]
+               "VerifCtxWriteOperation", "FloatBasicProbe", "FloatMockDataSink", "FloatPayloadSink",
+               "VerifUndocSource", "VerifUndocProbe", "VerifUndocSink"]
 
 
 def kind_of_class(cls):
